@@ -39,6 +39,12 @@ def gen_cases(tier, seed):
         r = random.Random(rng.randrange(1 << 30))
         cases.append({'scenario': ['deadline-sweep', 'stream-close'][i % 2], 'mode': 'async' if i % 4 == 3 else 'sync', 'workers': r.choice([1, 2]), 'victims': r.choice([1, 2]),
                       'witnesses': 1, 'rounds': 2, 'capacity': r.choice([1, 2, 8]), 'batch': 0, 'process': True, 'seed': r.randrange(1 << 30)})
+    # many requests abandoned at once and the server shut down (or used again) while their results are still on the way
+    nm = [8, 33, 48, 100, 300]
+    for i in range(10 if tier == 'quick' else 80):
+        cases.append({'scenario': 'mass-abandon', 'how': ['timeouts', 'stream-close'][i % 2], 'mode': 'async' if (i // 2) % 2 == 0 else 'sync',
+                      'n': nm[(i // 4 + i) % len(nm)], 'then': ['exit', 'exit', 'final-call'][i % 3], 'workers': [8, 48][(i // 3) % 2],
+                      'seed': rng.randrange(1 << 30)})
     return cases
 
 
@@ -49,7 +55,126 @@ def tok(client, s, sleep=SERVICE, fail=False):
     return ('tok', client, s, tuple(plan))
 
 
+def _mass_abandon(case):
+    """n requests abandoned together (all deadlines expire / a stream with n requests pending is closed after its first result); the
+    `async with` / `with` block is left at once (or after one more long-deadline call), so the abandoned results come out of the pipeline
+    while the server is shutting down."""
+    from mpservice._common import TimeoutError as MpTimeout
+    from mpservice.mpserver import AsyncServer, Server, ThreadServlet
+
+    n, w = case['n'], case['workers']
+    svc = 0.5 if w >= n else max(0.02, 0.8 * w / n)  # every result is still on the way when the callers give up after 0.15 s
+    viol = []
+    obs = {'lifetimes': 1, 'mass_abandon_lifetimes': 1, 'abandoned_calls': 0, 'streams_closed_early': 0, 'pending_at_close': 0, 'witness_requests': 0, 'final_calls': 0}
+    servlet = ThreadServlet(ST.TagWorker, tag='A', num_threads=w)
+    is_async = case['mode'] == 'async'
+    server = (AsyncServer if is_async else Server)(servlet, capacity=max(n, 4))
+    dr = watch.DeathRecorder().install()
+    mu = threading.Lock()
+
+    def note_final(y):
+        obs['final_calls'] += 1
+        obs['witness_requests'] += 1
+        if y != ('A', tok(999, 0, 0.001)):
+            viol.append({'mech': 'abandon/witness-lost' if isinstance(y, (MpTimeout, TimeoutError)) else 'abandon/witness-wrong',
+                         'msg': f'the request after {n} abandoned ones got {y!r}'})
+
+    def sync_body():
+        if case['how'] == 'timeouts':
+            def one(i):
+                try:
+                    server.call(tok(1, i, svc), timeout=0.15)
+                except (MpTimeout, TimeoutError):
+                    with mu:
+                        obs['abandoned_calls'] += 1
+                except Exception as e:  # noqa: BLE001
+                    viol.append({'mech': 'abandon/victim-wrong-error', 'msg': f'short-deadline call raised {e!r} instead of TimeoutError'})
+
+            ths = [threading.Thread(target=one, args=(i,), name=f'victim-{i}') for i in range(n)]
+            for t in ths:
+                t.start()
+            for t in ths:
+                t.join()
+        else:
+            it = server.stream(iter([tok(1, 0, 0.001)] + [tok(1, i, svc) for i in range(1, n + 1)]), timeout=30)
+            next(it)
+            time.sleep(0.1)
+            obs['pending_at_close'] += server.backlog
+            it.close()
+            obs['streams_closed_early'] += 1
+        if case['then'] == 'final-call':
+            try:
+                note_final(server.call(tok(999, 0, 0.001), timeout=30, backpressure=False))
+            except Exception as e:  # noqa: BLE001
+                note_final(e)
+
+    async def async_body():
+        if case['how'] == 'timeouts':
+            async def one(i):
+                try:
+                    await server.call(tok(1, i, svc), timeout=0.15)
+                except (MpTimeout, TimeoutError):
+                    obs['abandoned_calls'] += 1
+                except Exception as e:  # noqa: BLE001
+                    viol.append({'mech': 'abandon/victim-wrong-error', 'msg': f'short-deadline call raised {e!r} instead of TimeoutError'})
+
+            await asyncio.gather(*[one(i) for i in range(n)])
+        else:
+            async def src():
+                yield tok(1, 0, 0.001)
+                for i in range(1, n + 1):
+                    yield tok(1, i, svc)
+
+            it = server.stream(src(), timeout=30)
+            await it.__anext__()
+            await asyncio.sleep(0.1)
+            obs['pending_at_close'] += server.backlog
+            await it.aclose()
+            obs['streams_closed_early'] += 1
+        if case['then'] == 'final-call':
+            try:
+                note_final(await server.call(tok(999, 0, 0.001), timeout=30, backpressure=False))
+            except Exception as e:  # noqa: BLE001
+                note_final(e)
+
+    def lifetime():
+        try:
+            if is_async:
+                async def main():
+                    async with server:
+                        await async_body()
+                asyncio.run(main())
+            else:
+                with server:
+                    sync_body()
+        except Exception as e:  # noqa: BLE001
+            viol.append({'mech': 'abandon/exit-raised', 'msg': f'server context raised {e!r}'})
+
+    try:
+        watch.run_bounded(lifetime, BOUND, 'server lifetime')
+    except watch.Hang as h:
+        viol.append({'mech': 'abandon/hang', 'msg': f'server lifetime (incl. __exit__) did not finish after {n} requests were abandoned together ({case["how"]}); stacks stable',
+                     'stacks': h.stacks})
+        return {'violations': viol, 'obs': obs, 'exit_after': True}
+    except watch.Inconclusive as e:
+        return {'violations': viol, 'obs': obs, 'inconclusive': str(e), 'exit_after': True}
+    finally:
+        dr.uninstall()
+    deaths = dr.snapshot()
+    if deaths:
+        viol.append({'mech': 'abandon/helper-thread-died', 'msg': f'{deaths[0]}'[:700]})
+    res = {'violations': viol[:6], 'obs': obs, 'nontrivial': obs['abandoned_calls'] + obs['pending_at_close'] > 0,
+           'sig': hash(('mass', case['how'], case['mode'], n, case['then'])) & 0xFFFFFFFFFFFF,
+           'sample': {'scenario': 'mass-abandon', 'how': case['how'], 'mode': case['mode'], 'n': n, 'then': case['then'], 'abandoned_calls': obs['abandoned_calls'],
+                      'pending_at_close': obs['pending_at_close']}}
+    if viol:
+        res['exit_after'] = True
+    return res
+
+
 def run_case(case):
+    if case['scenario'] == 'mass-abandon':
+        return _mass_abandon(case)
     import mpservice.mpserver._server as SV
     import mpservice.streamer._streamer as S
     from mpservice._common import TimeoutError as MpTimeout
